@@ -538,6 +538,15 @@ func (w *World) HostileBytes(valid []byte) ([]byte, string) {
 func (w *World) NextTx() ([]byte, string, *TxSpec) {
 	v := w.View()
 	cp := ParamsOf(v)
+	if len(w.forceUnjail) > 0 {
+		a := w.ByAddr[w.forceUnjail[0]]
+		w.forceUnjail = w.forceUnjail[1:]
+		if a != nil {
+			s := w.honest(a, posTypes.MsgUnjail{ValidatorAddr: a.Addr}, cp)
+			bz, _, _ := s.Build(w.Env.A.Cdc)
+			return bz, "unjail-at-expiry", s
+		}
+	}
 	kind := w.pickWeighted()
 	var s *TxSpec
 	var label string
